@@ -253,7 +253,14 @@ Inductive event :=
 | ETick (now until : Z) (ab : abort)         (* periodicUpdate at [now]; the window ends at [until] *)
 | ECmd                                       (* a command was sent: ScheduleImmediateUpdate, forceFull *)
 | ETpFlip (p : nat)
-| ETpRefresh (ab : nat).
+| ETpRefresh (ab : nat)
+| EResume (now until : Z).                   (* ResumeFromIdle at [now] (first query after idling) *)
+
+(** peer.go:2777 ResumeFromIdle: timeperiods, then UpdateDelta(lastUpdate, now) - the window again starts at
+    lmd's own lastUpdate; a peer that is not up only schedules the next periodicUpdate *)
+Definition resume (c : cfg) (now until : Z) (s : st) : st :=
+  if warn s then set_lu (now - c_interval c) s
+  else update_delta c (lu s) until now now AbNo (tp_refresh c 0 s).
 
 Definition flip (v : Z) : Z := if v =? 0 then 1 else 0.
 
@@ -268,6 +275,7 @@ Definition step (c : cfg) (s : st) (e : event) : st :=
            (btp s) (ctp s) 0 (negb (has_lu c)) (warn s)
   | ETpFlip p => set_btp (upd_nth p flip (btp s)) s
   | ETpRefresh ab => tp_refresh c ab s
+  | EResume now until => resume c now until s
   end.
 
 (** InitAllTables at time [t0] *)
@@ -341,6 +349,9 @@ Definition wc_ev_ok (c : cfg) (s : st) (e : event) : bool :=
          | _ => false                                              (* lastUpdate advanced, window lost *)
          end
   | ECmd => 0 <=? lu s
+  | EResume now until =>
+      if warn s then now - c_interval c <=? lu s
+      else (now <=? until) && ((0 <? lu s) || lc_nonneg s)
   | _ => true
   end.
 
